@@ -111,6 +111,8 @@ http_port = {http}
 [persistence]
 data_dir = "{data}"
 fsync_policy = "{fsync}"
+recovery_mode = "strict"
+allow_fresh_start_on_recovery_failure = false
 snapshot_interval_mutations = {snap}
 max_wal_size_bytes = {wal}
 wal_flush_interval_ms = 50
